@@ -83,7 +83,7 @@ class BeliefPropagationOSDDecoder(BaseDecoder):
         if is_css:
             self.z_decoder = BpOsdDecoder(
                 self.code.Hx,
-                error_rate=self.error_rate,
+                error_rate=float(self.error_rate),
                 max_iter=self._max_bp_iter,
                 bp_method=self._bp_method,
                 ms_scaling_factor=0.,
@@ -94,7 +94,7 @@ class BeliefPropagationOSDDecoder(BaseDecoder):
 
             self.x_decoder = BpOsdDecoder(
                 self.code.Hz,
-                error_rate=self.error_rate,
+                error_rate=float(self.error_rate),
                 max_iter=self._max_bp_iter,
                 bp_method=self._bp_method,
                 ms_scaling_factor=0.,
@@ -106,7 +106,7 @@ class BeliefPropagationOSDDecoder(BaseDecoder):
         else:
             self.decoder = BpOsdDecoder(
                 self.code.stabilizer_matrix,
-                error_rate=self.error_rate,
+                error_rate=float(self.error_rate),
                 max_iter=self._max_bp_iter,
                 bp_method=self._bp_method,
                 ms_scaling_factor=0.,
